@@ -1,0 +1,71 @@
+//go:build verif
+
+package uasc
+
+import (
+	"context"
+
+	"github.com/gopcua/opcua/ua"
+	"github.com/gopcua/opcua/uapolicy"
+)
+
+// Read-only views for the verification scenarios (build tag verif only).
+
+// VerifE2Handlers returns the number of requests still waiting for a response.
+func (s *SecureChannel) VerifE2Handlers() int {
+	s.handlersMu.Lock()
+	defer s.handlersMu.Unlock()
+	return len(s.handlers)
+}
+
+// VerifE2OpenChunks returns the number of request ids with a partially received message.
+func (s *SecureChannel) VerifE2OpenChunks() int {
+	s.chunksMu.Lock()
+	defer s.chunksMu.Unlock()
+	return len(s.chunks)
+}
+
+// VerifE2Tokens returns the security token ids of the channel instances the
+// channel still accepts, and the id of the active one.
+func (s *SecureChannel) VerifE2Tokens() (all []uint32, active uint32) {
+	s.instancesMu.Lock()
+	defer s.instancesMu.Unlock()
+	for _, list := range s.instances {
+		for _, i := range list {
+			all = append(all, i.securityTokenID)
+		}
+	}
+	if s.activeInstance != nil {
+		active = s.activeInstance.securityTokenID
+	}
+	return all, active
+}
+
+// VerifE2ActiveAlgo returns the crypto state (keys) of the active security token.
+func (s *SecureChannel) VerifE2ActiveAlgo() *uapolicy.EncryptionAlgorithm {
+	s.instancesMu.Lock()
+	defer s.instancesMu.Unlock()
+	if s.activeInstance == nil {
+		return nil
+	}
+	return s.activeInstance.algo
+}
+
+// VerifE2SendWithAlgo sends resp as the next message of the channel's stream
+// (fresh sequence number, current channel and token ids) but protected with the
+// given crypto state, e.g. the keys of a superseded token. It uses the real
+// encoding and protection code.
+func (s *SecureChannel) VerifE2SendWithAlgo(ctx context.Context, algo *uapolicy.EncryptionAlgorithm, reqID uint32, resp ua.Response) error {
+	active, err := s.getActiveChannelInstance()
+	if err != nil {
+		return err
+	}
+	active.Lock()
+	defer active.Unlock()
+	tmp := &channelInstance{sc: s, state: channelActive, secureChannelID: active.secureChannelID, securityTokenID: active.securityTokenID,
+		sequenceNumber: active.sequenceNumber, algo: algo, maxBodySize: active.maxBodySize}
+	m := tmp.newMessage(resp, ua.ServiceTypeID(resp), reqID)
+	_, err = s.writeMessageChunks(ctx, tmp, reqID, m, resp)
+	active.sequenceNumber = tmp.sequenceNumber
+	return err
+}
